@@ -148,6 +148,8 @@ def gen_simple(rng, depth=0):
         if kind.startswith("first"):
             return (":" + kind, ("N" if kind == "first-child" else "O") + "0:1")
         a = rng.choice([0, 0, 1, 2, 3, -1, -2]); b = rng.choice([0, 1, 2, 3, -1])
+        if rng.randrange(12) == 0:        # offsets at the edge of i32: index - b must not overflow (wrapping arithmetic in has_index)
+            b = rng.choice([-2147483647, -2147483648, 2147483647, -2147483646, 2147483646]); a = rng.choice([0, 1, 1, -1, 2, 2147483647, -2147483648])
         txt = "%dn%+d" % (a, b)
         return (":%s(%s)" % (kind, txt), ("N" if kind == "nth-child" else "O") + "%s:%s" % (zi(a), zi(b)))
     if c < 92 and depth < 2:
@@ -268,8 +270,9 @@ def l2_doc(rng, depth=0, foreign=False):
                 # attribute names that are parse errors but still attributes (quotes, '<', leading '=' inside names; a stray quote after a value)
                 attrs += rng.choice([b' alt="foo""', b' b"c=2', b" it's=ok", b" d'=\"M0 0\"", b" =x", b" a=b=c", b" x<y=1", b' "', b" '=1", b' id="k"\' class=a'])
             sc = b"/" if foreign and rng.randrange(3) == 0 else b""
+            deco = b" /" if (not foreign and rng.randrange(5) == 0) else b""      # '/>' on an HTML element is ignored: it still has content and an end tag
             close = rng.randrange(10)
-            out += b"<" + t.encode() + attrs + sc + b">"
+            out += b"<" + t.encode() + attrs + sc + deco + b">"
             if not sc:
                 out += l2_doc(rng, depth + 1, foreign)
                 if close < 7: out += b"</" + t.encode() + b">"
@@ -396,6 +399,7 @@ def enc_text(rng, idx, long=False):
         else:
             out += rng.choice([b"plain ascii ", b"x", b"&amp;", b"1 > 0 ", b"words and more words ", b"\n"])
     return out
+def codec_of(idx): return ENC_CODECS[idx]
 def gen_enc(rng, n, prefix="e"):
     for i in range(n):
         idx = rng.randrange(36) if rng.randrange(4) else 23
@@ -410,7 +414,14 @@ def gen_enc(rng, n, prefix="e"):
             elif c < 11:
                 t = rng.choice([b"p", b"div", b"span", b"a", b"b"]); v = enc_text(rng, cur).replace(b'"', b"").replace(b">", b"")
                 nm = re.sub(rb"[\x00-\x20\"'>/=<]", b"", enc_text(rng, cur))[:12] or b"n"
-                parts.append(b"<" + t + b' title="' + v + b'" ' + rng.choice([b"", b"x=y", b"data-" + bytes(rng.randrange(0x80, 0x100) for _ in range(2)) + b"=1", b"D" + nm + b"=2", nm + b"A=3"]) + b">")
+                # characters whose trail byte is an ASCII letter (byte-wise case folding must not break by-name lookups)
+                TRAIL = {"shift_jis": "\u30a2\u30a4\u30ab\u30bd", "big5": "\u4e59\u4e01\u4e03", "gbk": "\u4e02\u4e04\u4e05", "gb18030": "\u4e02\u4e04"}
+                if codec_of(cur) in TRAIL and rng.randrange(3) == 0: nm = "".join(rng.choice(TRAIL[codec_of(cur)]) for _ in range(rng.randrange(1, 4))).encode(codec_of(cur))
+                probe = b""
+                if codec_of(cur) and rng.randrange(5) == 0:
+                    try: probe = b" " + rng.choice(["na\u00efve", "Na\u00efVE"]).encode(codec_of(cur)) + rng.choice([b"", b"=1"])
+                    except UnicodeEncodeError: probe = b""
+                parts.append(b"<" + t + b' title="' + v + b'" ' + rng.choice([b"", b"x=y", b"data-" + bytes(rng.randrange(0x80, 0x100) for _ in range(2)) + b"=1", b"D" + nm + b"=2", nm + b"A=3"]) + probe + b">")
             elif c < 13: parts.append(b"</" + rng.choice([b"p", b"div", b"span", b"a"]) + b">")
             elif c < 15: parts.append(b"<!--" + enc_text(rng, cur).replace(b"--", b"-").replace(b">", b"") + b"-->")
             elif c < 16: parts.append(b"<" + rng.choice([b"my-\xc3\xa9l", b"x\xe4\xb8\xad", b"t\xff"]) + b">")
@@ -467,7 +478,8 @@ def c03_island(rng, ns, depth=0):
         elif c < 5: out += b"<!--" + rng.choice([b"c", b""]) + b"-->"
         elif c < 7: out += b"<" + rng.choice([b"g", b"path d=1", b"circle r='2'", b"mrow", b"mspace"]) + b"/>"
         elif c < 10 and depth < 4:
-            t = rng.choice([b"g", b"a", b"text", b"defs"] if ns == "svg" else [b"mrow", b"mfrac", b"semantics", b"mstyle"])
+            # (a root element of the same namespace nested directly: <svg> in SVG content, <math> in MathML content)
+            t = rng.choice([b"g", b"a", b"text", b"defs", b"svg", b"svg"] if ns == "svg" else [b"mrow", b"mfrac", b"semantics", b"mstyle", b"math", b"math"])
             out += b"<" + t + rng.choice([b"", b" id=x", b" CLASS='y'"]) + b">" + c03_island(rng, ns, depth + 1) + b"</" + t + b">"
         elif c < 12 and depth < 4:
             # integration points: HTML inside
@@ -626,6 +638,39 @@ def gen_utf8(rng, n):
         for j, ch in enumerate(all_chunkings(rng, data, 4)):
             yield "L2 u%d.%d nomodel=1 isz=104 strict=0 %s ops=%s" % (i, j, " ".join(toks), ",".join(["W" + c.hex() for c in ch] + ["E"]))
 
+MALF = [b"\xff", b"\xc0\xaf", b"\xe4\xb8", b"\xf0\x9f\x98", b"\xed\xa0\x80", b"\xc3", b"\xf8\x88\x80\x80\x80", b"\x80", b"\xfe\xff"]
+def gen_utf8m(rng, n):
+    """UTF-8 documents with malformed sequences in text, inside and outside elements matched by selector-scoped observing
+    handlers (nested matches of one selector, siblings, unmatched tails).  Not run through the model (identity codec):
+    oracle only -- text no handler captured must pass through byte for byte, captured text is normalised through decode/encode."""
+    def text():
+        out = b""
+        for _ in range(rng.randrange(1, 4)):
+            c = rng.randrange(10)
+            if c < 4: out += rng.choice(MALF)
+            elif c < 6: out += rng.choice(UTEXT).encode()
+            else: out += rng.choice([b"plain ", b"x", b"text &amp; more ", b"\n"])
+        return out
+    def tree(depth):
+        out = b""
+        for _ in range(rng.randrange(1, 4)):
+            c = rng.randrange(10)
+            if c < 5 and depth < 4:
+                t = rng.choice([b"div", b"div", b"p", b"span", b"b"])
+                out += b"<" + t + rng.choice([b"", b" class=a", b" id=x"]) + b">" + tree(depth + 1) + (b"</" + t + b">" if rng.randrange(6) else b"")
+            elif c < 9: out += text()
+            else: out += rng.choice([b"<!--c-->", b"<br>", b"<!--" + rng.choice(MALF) + b"-->"])
+        return out
+    for i in range(n):
+        data = tree(0) + (text() if rng.randrange(2) else b"")
+        toks = []
+        for _ in range(rng.choice([1, 1, 2])):
+            css, st = rng.choice([("div", "T" + hx("div")), ("p", "T" + hx("p")), ("span", "T" + hx("span")), ("div div", "T%s_T%s" % (hx("div"), hx("div"))), (".a", "C" + hx("a")), ("div > *", "T%s>A" % hx("div")), ("*", "A")])
+            toks.append("sel=%s~%s~%s~%s~%s" % (hx(css), st, rng.choice(["-", "-", ""]), rng.choice(["-", "-", ""]), rng.choice(["a:", "a:", "l:", "-"])))
+        if all(t.endswith("~-~-~-") for t in toks): toks[0] = toks[0][:-1] + "a:"
+        for j, ch in enumerate(all_chunkings(rng, data, 3)):
+            yield "L2 um%d.%d nomodel=1 isz=104 strict=0 %s ops=%s" % (i, j, " ".join(toks), ",".join(["W" + c.hex() for c in ch] + ["E"]))
+
 def gen_nohandlers(rng, n):
     """no handlers at all: the tag scanner alone; written byte by byte so that pending is observed at every prefix"""
     for i in range(n):
@@ -648,6 +693,8 @@ def main():
         for l in gen_nohandlers(rng, max(1, n // 3)): print(l)
     elif fam == "utf8":
         for l in gen_utf8(rng, max(1, n // 4)): print(l)
+    elif fam == "utf8m":
+        for l in gen_utf8m(rng, max(1, n // 3)): print(l)
     elif fam == "pairs":
         for l in gen_pairs(rng, max(1, n // 4)): print(l)
     elif fam == "mem":
@@ -689,6 +736,15 @@ def main():
                 if " bail=" in l or " bh=1" in l or _re.search(r"(sb:|sf:|sr:|[~,]sx|[(+]rp:)", l): continue
                 print(l); k += 1
                 if k >= max(1, n * share // 10): break
+        # a setter that fails (bad attribute name) whose error is not collected, then an injected Stop in the same write call:
+        # the error reported for the write must be the Stop, not the stale one
+        isz = int(open('/verif/build/itemsize.txt').read().strip()) if __import__('os').path.exists('/verif/build/itemsize.txt') else 104
+        for i in range(max(1, n // 8)):
+            data = l2_doc(rng)
+            ops = ["sa:%s:%s" % (hx(rng.choice(["a=b", "", "x y", "a>b"])), hx(rng.choice(ATTRV)))]
+            for _ in range(rng.randrange(0, 3)): ops.insert(rng.randrange(len(ops) + 1), rng.choice(["sa:%s:%s" % (hx(rng.choice(ATTRN)), hx(rng.choice(ATTRV))), "ra:" + hx(rng.choice(ATTRN)), "bf:" + gen_chunk(rng), "tn:" + hx(rng.choice(["b", "1a", ""]))]))
+            ch = [data] if rng.randrange(3) else chunkings(rng, data)
+            print("L2 kx%d fail=%d isz=%d strict=0 sel=2a~A~%s~-~- ops=%s" % (i, rng.randrange(2, 7), isz, ",".join(ops), ",".join(["W" + c.hex() for c in ch] + ["E"])))
     elif fam == "c03":
         for l in gen_c03(rng, n): print(l)
     elif fam == "enc":
